@@ -61,6 +61,8 @@ DIRECTED = [
     ("comm-async", IDS + "mbox 2\nactor s1.5 s0.6 c0 C1\nactor r0 r1 t0 I1 Y c1 t1\nactor d1.9 r1 c0\n", 5, 40),
     ("wait-any", IDS + "mbox 3\nactor s0.1 s1.2 s2.3 s0.4\nactor r0 a\nactor r0 r1 r2 a a a\n", 5, 40),
     ("test-any", IDS + "mbox 2\nactor s1.2 s1.3 s0.1\nactor z r0 y r1 r1 y y y\n", 6, 40),
+    # the sender goes first (semaphore): test_any over {receive never matched, receive matched}
+    ("test-any-second-ready", IDS + "sem 0\nmbox 2\nactor s1.2 V0\nactor P0 r0 r1 y\n", 2, 20),
     ("iprobe", IDS + "tag 77\nmbox 2\nactor s1.5\nactor b1.0 b1.1 b0.0 r1\n", 4, 20),
     ("actors", IDS + "actor K2 J1 j2 Y\nactor Q3.9 Q0.0 X\ndyn Y Q1.2\n", 4, 30),
 ]
@@ -151,6 +153,9 @@ def e2e(ctx, mc, app, tmp, name, spec, kind):
         return
     if CLEAR.search(out):
         ctx.count("e2e.clear_error")
+        return
+    if "output not available" in out:
+        ctx.inconclusive("e2e-output-lost")
         return
     what = "uncaught-exception" if "Uncaught exception" in out or "terminate called" in out else "crash"
     m = re.search(r"Uncaught exception ([\w:]+\w)", out)
